@@ -226,11 +226,17 @@ func (g G) Cons(depth int, o SchemaOpts) m.ConsM {
 	case 10:
 		c := m.ConsM{K: "object", Desc: g.desc(), Name: Pick(g, []string{"", "objname"}), AllowInterpKeys: g.Chance(30)}
 		n := g.Int(0, 4)
+		if o.Huge && g.Chance(10) {
+			n = g.Int(95, 130)
+		}
 		if n > 0 {
 			c.Attrs = map[string]m.AttrM{}
 		}
 		for i := 0; i < n; i++ {
-			name := Pick(g, []string{"a", "ab", "k", "é", "n-1", "req"})
+			name := wideName([]string{"a", "ab", "k", "é", "n-1", "req"}, g.Int(0, 5))
+			if n > 10 {
+				name = wideName([]string{"a", "ab", "k", "é", "n-1", "req"}, i)
+			}
 			a := m.AttrM{Flag: Pick(g, []string{"required", "optional", "optional"}), Cons: g.Cons(depth-1, o), Desc: g.desc(), Sensitive: g.Chance(10), Deprecated: g.Chance(10)}
 			c.Attrs[name] = a
 		}
@@ -702,10 +708,13 @@ func (g G) blockAddr(bl m.BlockM) *m.BlockAddrM {
 }
 
 // Funcs generates a function table.
-func (g G) Funcs(wide bool) map[string]m.FuncM {
+func (g G) Funcs(wide bool, huge ...bool) map[string]m.FuncM {
 	n := g.Int(0, 4)
 	if wide && g.Chance(40) {
 		n = g.Int(13, 30)
+	}
+	if len(huge) > 0 && huge[0] && g.Chance(40) {
+		n = g.Int(95, 130)
 	}
 	if n == 0 {
 		return nil
